@@ -6,7 +6,7 @@ open PikaVerif
 /-- Program counters at which the thread holds the internal spinlock. -/
 def holds : Pc → Bool
   | .locked | .released | .enq _ | .relk _ _ | .post _ | .nLocked | .nAll | .nDone => true
-  | .sChk1 | .sStopped | .cLocked _ | .cAll _ => true
+  | .sChk1 | .sStopped | .cLocked _ | .cAll _ | .postS _ => true
   | _ => false
 
 /-- Program counters at which the thread holds the user lock. -/
@@ -19,7 +19,7 @@ def holdsU : Pc → Bool
 /-- Program counters at which the thread does not hold the user lock. -/
 def noU : Pc → Bool
   | .wantU | .released | .enq _ | .unl _ _ | .susp _ | .slp _ | .wokeNL _ _ | .relk _ _
-  | .post _ | .relockU _ => true
+  | .post _ | .relockU _ | .postS _ => true
   | _ => false
 
 /-- Program counters at which the thread's entry is linked in the cv queue. -/
@@ -58,6 +58,8 @@ theorem inv_init (n : Nat) (f : Bool) : Inv (init n f) := by
 
 attribute [local grind] holds holdsU noU inQ waitExp needTok setPopped b2n isTimed isPred exitPc
 
+set_option maxHeartbeats 1600000
+
 set_option hygiene false in
 macro "cv_step" : tactic => `(tactic| (
   simp only [step] at h
@@ -77,7 +79,6 @@ macro "cv_step" : tactic => `(tactic| (
     | (intro u; grind [upd])
     | grind [upd]))
 
-set_option maxHeartbeats 1000000 in
 theorem step_inv_inv (s s' : St) (t : Nat) (o : Op) (hi : Inv s) (h : step s (.inv t o) = some s') : Inv s' := by cv_step
 theorem step_inv_ret (s s' : St) (t : Nat) (r : Nat) (hi : Inv s) (h : step s (.ret t r) = some s') : Inv s' := by cv_step
 theorem step_inv_ulAcq (s s' : St) (t : Nat) (hi : Inv s) (h : step s (.ulAcq t) = some s') : Inv s' := by cv_step
@@ -97,6 +98,7 @@ theorem step_inv_timeout (s s' : St) (t : Nat) (hi : Inv s) (h : step s (.timeou
 theorem step_inv_done (s s' : St) (t : Nat) (hi : Inv s) (h : step s (.done t) = some s') : Inv s' := by cv_step
 theorem step_inv_stop0 (s s' : St) (t : Nat) (v : Bool) (hi : Inv s) (h : step s (.stop0 t v) = some s') : Inv s' := by cv_step
 theorem step_inv_stop1 (s s' : St) (t : Nat) (v : Bool) (hi : Inv s) (h : step s (.stop1 t v) = some s') : Inv s' := by cv_step
+theorem step_inv_stop2 (s s' : St) (t : Nat) (v : Bool) (hi : Inv s) (h : step s (.stop2 t v) = some s') : Inv s' := by cv_step
 theorem step_inv_stSeen (s s' : St) (t : Nat) (hi : Inv s) (h : step s (.stSeen t) = some s') : Inv s' := by cv_step
 theorem step_inv_stAcq (s s' : St) (t m : Nat) (hi : Inv s) (h : step s (.stAcq t m) = some s') : Inv s' := by cv_step
 theorem step_inv_stPush (s s' : St) (t : Nat) (b : Bool) (hi : Inv s) (h : step s (.stPush t b) = some s') : Inv s' := by cv_step
@@ -235,6 +237,7 @@ theorem step_inv (s s' : St) (e : Ev) (hi : Inv s) (h : step s e = some s') : In
   | done t => exact step_inv_done s s' t hi h
   | stop0 t v => exact step_inv_stop0 s s' t v hi h
   | stop1 t v => exact step_inv_stop1 s s' t v hi h
+  | stop2 t v => exact step_inv_stop2 s s' t v hi h
   | stSeen t => exact step_inv_stSeen s s' t hi h
   | stAcq t m => exact step_inv_stAcq s s' t m hi h
   | stPush t b => exact step_inv_stPush s s' t b hi h
